@@ -77,7 +77,7 @@ instance (m : MethodCfg) : Decidable (NodeShape m) := by unfold NodeShape; infer
 /-- the extracted table describes the comparison the theorems are about -/
 def Cfg.Good (cfg : Cfg) : Prop :=
   SameMem cfg.props stdProps ∧ (cfg.infoPresence = true ∧ cfg.classGuard = true ∧ cfg.vals.notOtherIsNone = true ∧ cfg.vals.udSameClass = true ∧
-    cfg.vals.udCanonicalText = true) ∧
+    cfg.vals.udCanonicalText = true ∧ cfg.dictKeyOnly = true) ∧
   LevelGood cfg.iface .ifs none [] ∧ IfsShape cfg.iface ∧
   LevelGood cfg.svc .ifs (some ["DedicatedPort"]) subTests ∧ IfsShape cfg.svc ∧
   LevelGood cfg.node .comps (some ["SmartNIC"]) [] ∧ LevelGood cfg.node .svcs none [] ∧ NodeShape cfg.node
